@@ -216,3 +216,72 @@ func c19DistinctElements(c *Ctx) {
 		c.Unresolved("C19.R3", "pointers kept inside loops of the dump path (found 0)")
 	}
 }
+
+// c19SameWireType (R1): the load side decodes the type the dump side encodes - on every path that succeeds.
+// MarshalJSON returns json.Marshal(v) for a v of some type W (the wire type: a shadow config struct, a slice, ...).
+// UnmarshalJSON must hand the input to json.Unmarshal with a *W target before it can return success: a path that succeeds
+// after decoding the input as something else (a single element instead of the list, a different shadow struct) accepts
+// a second wire form, and what the dump writes for an empty value (null, {}, []) can land on it and come back as a
+// different value.
+func c19SameWireType(c *Ctx, mar, unm *ssa.Function, typeKey string) {
+	isJSON := func(cc *ssa.CallCommon, name string) bool {
+		f := cc.StaticCallee()
+		return f != nil && f.Pkg != nil && f.Pkg.Pkg.Path() == "encoding/json" && f.Name() == name
+	}
+	var wire []types.Type
+	for _, cs := range callsIn(mar, true, func(cc *ssa.CallCommon) bool { return isJSON(cc, "Marshal") }) {
+		v := stripIface(cs.Instr.Common().Args[0])
+		t := v.Type()
+		if p, ok := t.Underlying().(*types.Pointer); ok {
+			t = p.Elem()
+		}
+		wire = append(wire, t)
+	}
+	if len(wire) == 0 {
+		c.Fail("C19.R1", typeKey+":same-wire-type", mar.Pos(), "MarshalJSON does not end in json.Marshal of a value whose type could be identified: the wire type of the pair is unknown")
+		return
+	}
+	right := func(in ssa.Instruction) bool {
+		ci, ok := in.(ssa.CallInstruction)
+		if !ok || !isJSON(ci.Common(), "Unmarshal") || len(ci.Common().Args) != 2 {
+			return false
+		}
+		t := stripIface(ci.Common().Args[1]).Type()
+		p, ok := t.Underlying().(*types.Pointer)
+		if !ok {
+			return false
+		}
+		for _, w := range wire {
+			if types.Identical(p.Elem(), w) {
+				return true
+			}
+		}
+		return false
+	}
+	var bad ssa.Instruction
+	for _, rs := range returnSites(unm, 0) {
+		// error exits do not matter
+		if !isNilConst(rs.val) {
+			if call, ok := rs.val.(*ssa.Call); ok && right(call) {
+				continue // `return json.Unmarshal(b, &wire)`
+			}
+			if _, ok := rs.val.(*ssa.Const); !ok {
+				// a propagated error value: success only if it is nil, which the decode it came from decides; judged below
+				// when it is the result of a decode of another type
+				if call, ok := rs.val.(*ssa.Call); ok && isJSON(call.Common(), "Unmarshal") {
+					bad = call
+				}
+				continue
+			}
+		}
+		at := rs.at
+		if existsPath(unm, nil, func(in ssa.Instruction) bool { return in == at }, right) != nil {
+			bad = at
+		}
+	}
+	names := []string{}
+	for _, w := range wire {
+		names = append(names, types.TypeString(w, func(p *types.Package) string { return p.Name() }))
+	}
+	c.Check("C19.R1", typeKey+":same-wire-type", unm.Pos(), bad == nil, "every successful path of UnmarshalJSON decodes the input into "+strings.Join(names, "/"), "UnmarshalJSON can succeed without decoding its input into the type MarshalJSON encodes ("+strings.Join(names, "/")+"): it accepts a second wire form, and what the dump writes for an empty value (null) can be read back through it as a different value - the second dump differs from the first")
+}
